@@ -12,7 +12,8 @@ RULE = ('cases = the six *_Supervised estimators x constraint-generation '
         'parameters (n_constraints incl. the default, n_chunks, chunk_size, '
         'k_genuine, k_impostor) x prior/init/basis options (incl. random and '
         'covariance, which depend on tuples and seed) x integer seeds x '
-        'label vectors with and without unknown (-1) labels. Twin execution: '
+        'label vectors with and without unknown (-1) labels, with a single '
+        'unlabeled point, with a class of one member. Twin execution: '
         'supervised fit(X, y) vs the base learner fitted on constraints the '
         'harness derives with Constraints(y).<method>(random_state=seed) and '
         'forms itself (not through wrap_pairs). The Constraints methods are '
@@ -61,7 +62,7 @@ def setup_worker(tier=None):
 
 def cases(tier, seed):
   out = []
-  nrep = 8 if tier == 'quick' else 48
+  nrep = 12 if tier == 'quick' else 48
   for name in E.SUPERVISED_WEAK:
     dss = common.ds_specs(seed, 'C08' + name, nrep,
                           dmax=4 if tier == 'quick' else 7)
@@ -71,7 +72,8 @@ def cases(tier, seed):
       p = {}
       if name in ('ITML_Supervised', 'MMC_Supervised', 'SDML_Supervised',
                   'LSML_Supervised'):
-        p['n_constraints'] = [5, 20, 60, None][int(r.randint(0, 4))]
+        p['n_constraints'] = None if i % 4 == 3 else \
+            [5, 20, 60, None][int(r.randint(0, 4))]
         # (with unknown labels the default count is ambiguous -- does -1
         # count as a class? -- so the twin accepts either reading)
         key = 'init' if name == 'MMC_Supervised' else 'prior'
@@ -86,7 +88,15 @@ def cases(tier, seed):
         p['k_impostor'] = int(r.randint(1, 5))
         p['basis'] = ['lda', 'triplet_diffs'][i % 2]
       out.append({'est': name, 'params': p, 'ds': dict(ds, nmax=70),
-                  'seed': int(r.randint(0, 10**6)), 'unknown': unknown})
+                  'seed': int(r.randint(0, 10**6)), 'unknown': unknown,
+                  # a class with a single member (it can give no similar pair
+                  # but is a class all the same) / a single unlabeled point
+                  'singleton': bool(name in ('ITML_Supervised',
+                                             'MMC_Supervised',
+                                             'SDML_Supervised',
+                                             'LSML_Supervised') and
+                                    i % 4 in (1, 3)),
+                  'lone_unknown': bool(i % 6 == 0)})
   return out
 
 
@@ -94,7 +104,7 @@ def required(tier):
   n = 6 if tier == 'quick' else 40
   req = {'C08.twin.' + e: n for e in E.SUPERVISED_WEAK}
   req['C08.known-only'] = 6 * n
-  req['C08.subset-equal'] = 2 * n
+  req['C08.subset-equal'] = n
   return req
 
 
@@ -115,6 +125,14 @@ def run_case(spec, j):
         back = np.where((y == c) & mask)[0][:3 - len(idx)]
         mask[back] = False
     y[mask] = -1
+  elif spec.get('lone_unknown'):
+    y[int(rng.randint(n))] = -1
+  if spec.get('singleton'):
+    cand = np.where(y >= 0)[0]
+    cnt = {c: int((y == c).sum()) for c in np.unique(y[cand])}
+    cand = [i for i in cand if cnt[y[i]] > 4]
+    if cand:
+      y[cand[int(rng.randint(len(cand)))]] = y.max() + 7
   ds2 = dict(ds, y=y)
   params = dict(spec['params'])
   if params.get('weights') == '@weights':
